@@ -11,7 +11,12 @@ lib/gen_Conn.py (TcpConnection::sendInLoop) and lib/gen_C11.py (Acceptor::handle
    finding.  `tests_saved_errno(fn, syscall, conds)` is true iff for every given condition that reads errno
    (directly or through a canonicalised copy) no log statement (a muduo::Logger temporary, whose destructor calls
    the user-replaceable output function) lies ON THE PATH between the failing system call and the point where the
-   value is captured (the copy's declaration, or the condition itself for a direct read)."""
+   value is captured (the copy's declaration, or the condition itself for a direct read).
+   Strengthened after REVIEW_E E-6: not only a log statement - ANY call, constructor, new or delete other than
+   `__errno_location()` itself on that path makes the fact false (a `::close(-1)` or a helper that logs, placed
+   between the system call and the capture, may change errno as well).  The fact stays INTRA-procedural: what the
+   callee that wraps the system call does after it (sockets::accept, Socket::accept) is the business of
+   `restores_errno_after` / `only_success_calls_after` below."""
 import copy
 import cxxast
 
@@ -106,6 +111,76 @@ def _on_path(par, x, p):
     return True
 
 
+CALL_KINDS = ("CallExpr", "CXXMemberCallExpr", "CXXOperatorCallExpr", "CXXConstructExpr", "CXXTemporaryObjectExpr", "CXXNewExpr", "CXXDeleteExpr")
+
+
+def _callee(m):
+    if m.get("kind") not in ("CallExpr", "CXXMemberCallExpr", "CXXOperatorCallExpr") or not m.get("inner"):
+        return None
+    c = cxxast.strip(m["inner"][0])
+    return c.get("name") or (c.get("referencedDecl", {}) or {}).get("name")
+
+
+def restores_errno_after(fn, syscall, switch_groups_nonfatal):
+    """a wrapper that logs after its system call (sockets::accept): true iff (1) errno is copied right after the system
+    call - no call on the path between it and the copy's declaration -, (2) every given switch group (the classes after
+    which the caller carries on) consists of exactly `errno = <that copy>; break;`, and (3) nothing but `return <var>;`
+    follows the switch / the if that contains it"""
+    par = _parents(fn)
+    copies = errno_copies(fn)
+    if len(copies) != 1:
+        return False
+    cp = list(copies.values())[0]
+    calls = [m for m in cxxast.walk(fn) if _callee(m) == syscall]
+    if not calls:
+        raise cxxast.Untranslatable("no call of %s" % syscall)
+    first = min((c for c in calls if _offset(c) is not None), key=_offset)
+    w, po = _offset(first), _offset(cp)
+    inside = {id(m) for m in cxxast.walk(first)}
+    for m in cxxast.walk(fn):
+        if m.get("kind") in CALL_KINDS and id(m) not in inside and _callee(m) != "__errno_location":
+            o = _offset(m)
+            if o is not None and w < o < po and _on_path(par, m, cp):
+                return False
+    for body in switch_groups_nonfatal:
+        st = [x for x in body if x.get("kind")]
+        if len(st) != 2 or st[1].get("kind") != "BreakStmt":
+            return False
+        a = cxxast.strip(st[0])
+        if not (a.get("kind") == "BinaryOperator" and a.get("opcode") == "=" and is_errno(kids(a)[0])
+                and (cxxast.strip(kids(a)[1]).get("referencedDecl", {}) or {}).get("id") == cp.get("id")):
+            return False
+    top = kids(cxxast.body(fn))
+    return bool(top) and top[-1].get("kind") == "ReturnStmt" and not any(m.get("kind") in CALL_KINDS for m in cxxast.walk(top[-1]))
+
+
+def only_success_calls_after(fn, callee_name, okvar):
+    """a pass-through wrapper (Socket::accept): after its call of `callee_name` every further call sits inside an
+    `if (<okvar> >= 0)` then-branch, i.e. nothing runs on the failure path that could change errno"""
+    par = _parents(fn)
+    calls = [m for m in cxxast.walk(fn) if _callee(m) == callee_name]
+    if len(calls) != 1:
+        raise cxxast.Untranslatable("%d calls of %s" % (len(calls), callee_name))
+    w = _offset(calls[0])
+    inside = {id(m) for m in cxxast.walk(calls[0])}
+    for m in cxxast.walk(fn):
+        if m.get("kind") in CALL_KINDS and id(m) not in inside and (_offset(m) or 0) > w:
+            ok = False
+            ch = _chain(par, m)
+            for i, a in enumerate(ch):
+                if a.get("kind") == "IfStmt" and i > 0 and len(kids(a)) >= 2 and ch[i - 1] is kids(a)[1]:
+                    g = cxxast.GExpr()
+                    try:
+                        txt = g.tr(kids(a)[0], "bool")
+                    except cxxast.Untranslatable:
+                        continue
+                    if set(g.vars) == {okvar} and txt == "(Z.geb %s (0))" % okvar:
+                        ok = True
+            if not ok:
+                return False
+    return True
+
+
 def tests_saved_errno(fn, syscall, conds):
     """see the module docstring; raises Untranslatable if the system call or an offset cannot be found (fail closed)"""
     par = _parents(fn)
@@ -114,9 +189,10 @@ def tests_saved_errno(fn, syscall, conds):
              and (cxxast.strip(m["inner"][0]).get("name") or (cxxast.strip(m["inner"][0]).get("referencedDecl", {}) or {}).get("name")) == syscall]
     if not calls:
         raise cxxast.Untranslatable("no call of %s" % syscall)
-    w = min(o for o in (_offset(c) for c in calls) if o is not None)      # the first one in the source
-    loggers = [m for m in cxxast.walk(fn) if m.get("kind") in ("CXXTemporaryObjectExpr", "CXXConstructExpr")
-               and m.get("type", {}).get("qualType", "").split("::")[-1] == "Logger"]
+    first = min((c for c in calls if _offset(c) is not None), key=_offset)      # the first one in the source
+    w = _offset(first)
+    inside = {id(m) for m in cxxast.walk(first)}                            # its own arguments are evaluated before it runs
+    loggers = [m for m in cxxast.walk(fn) if m.get("kind") in CALL_KINDS and id(m) not in inside and _callee(m) != "__errno_location"]
     seen_errno_read = False
     for cond in conds:
         points = []
